@@ -26,7 +26,7 @@ type c01Resp struct {
 // build returns the origin response spec (dates relative to the virtual now at response time).
 func (r c01Resp) spec(now time.Time) RS {
 	var h [][2]string
-	ccv := cc(ifs(r.maxAge != "", "max-age="+r.maxAge), ifs(r.swr != "", "stale-while-revalidate="+r.swr), r.extraCC)
+	ccv := cc(r.extraCC, ifs(r.maxAge != "", "max-age="+r.maxAge), ifs(r.swr != "", "stale-while-revalidate="+r.swr))
 	h = hdrIf(h, "Cache-Control", ccv)
 	s := RS{Status: r.status, Delay: secs(r.delay)}
 	respAt := now.Add(secs(r.delay))
@@ -104,6 +104,10 @@ func runC01(x *mc.X) {
 		threeStep = x.Choose("three-step", 2) == 1
 	}
 
+	// an extension directive whose quoted argument ends in an escaped backslash, in front of the directives that matter
+	if x.Tier() == "thorough" || (r.status == 200 && r.delay == 0 && r.swr == "" && reqDir == "" && r.date == "now" && r.age == "") {
+		r.extraCC = mc.Pick(x, "resp.extension-directive-first", []string{"", `x-root="C:\\"`, `x-q="a\"b, max-age=99999"`})
+	}
 	// the protocol version of the origin's response says nothing about its age or lifetime
 	proto := ""
 	if x.Tier() == "thorough" || (r.status == 200 && r.delay == 0 && r.swr == "" && reqDir == "") {
@@ -149,7 +153,7 @@ func runC01(x *mc.X) {
 
 	if threeStep {
 		// a validation round in between: origin answers 304 (freshening) — the ghost is updated per §4.3.4
-		kind := mc.Pick(x, "mid.answer", []string{"304", "304+max-age=20", "200", "200+expires=5", "200+heuristic=5", "304+age=100-no-date"})
+		kind := mc.Pick(x, "mid.answer", []string{"304", "304+max-age=20", "200", "200+expires=5", "200+heuristic=5", "304+age=100-no-date", "304+two-cache-control-lines"})
 		var mid RS
 		switch kind {
 		case "304+age=100-no-date": // the validation reply went through an upstream cache and carries no Date
@@ -162,6 +166,8 @@ func runC01(x *mc.X) {
 			mid = RS{Status: 304, NoTok: true, H: H("ETag", `"v1"`)}
 		case "304+max-age=20":
 			mid = RS{Status: 304, NoTok: true, H: H("ETag", `"v1"`, "Cache-Control", "max-age=20")}
+		case "304+two-cache-control-lines": // both lines replace the stored field: the lifetime is 0, not heuristic
+			mid = RS{Status: 304, NoTok: true, H: H("ETag", `"v1"`, "Cache-Control", "public", "Cache-Control", "max-age=0", "Last-Modified", httpDate(time.Now().Add(-secs(1000000))))}
 		case "200":
 			mid = RS{Status: 200, H: H("Cache-Control", "max-age=20", "ETag", `"v2"`)}
 		}
